@@ -90,6 +90,13 @@ def lattice(name):
                 ("ethos-u65-512", "Dedicated_Sram", "Performance", 32768, "HillClimb", 16),
                 ("ethos-u65-256", "default", "Size", 32768, "HillClimb", 16)]
         return [dict(acc=a, mem=m, opt=o, arena=ar, alloc=al, align=ag) for a, m, o, ar, al, ag in rows]
+    if name == "cZ":
+        # boundary values of --arena-cache-size: zero (nothing may be placed in the cache) and one byte
+        rows = [("ethos-u65-256", "default", "Performance", 0, "HillClimb", 16),
+                ("ethos-u65-512", "Dedicated_Sram", "Size", 0, "Greedy", 16),
+                ("ethos-u65-256", "Dedicated_Sram", "Performance", 1, "HillClimb", 64),
+                ("ethos-u55-128", "Shared_Sram", "Performance", 0, "HillClimb", 16)]
+        return [dict(acc=a, mem=m, opt=o, arena=ar, alloc=al, align=ag) for a, m, o, ar, al, ag in rows]
     if name == "c4":
         return lattice("c8")[:4]
     if name == "c2":
